@@ -3,29 +3,90 @@
 //! to join.  Oracle: creation and join succeed exactly when the property says; after the re-init commit the
 //! old group refuses commits; an outsider without the old state cannot join.  `sub` rows feed the Lean
 //! model `Resumption.checkSubgroup` with the identity lists.
+//!
+//! Mismatched Welcomes: a dishonest old member (hooks `ReinitClient::verif_deviate`, `verif_deviate_params`,
+//! `Group::verif_branch_deviating`) creates the successor / branch with another protocol version, another cipher suite, a
+//! Welcome epoch other than 1, another group id or other extensions (and combinations); honest old members, with their
+//! unmodified `ReinitClient::join` / `join_subgroup`, must refuse.  `join` rows carry the announced and the actual
+//! parameters to `Resumption.joinChecks`, which predicts the error class (the order of the checks).
+//! Freeze: after the re-init commit every old member refuses to build commits (empty, Add, Remove, PSK, ReInit, by value)
+//! and to process commits of a member that ignores the freeze (hook `verif_forget_reinit`), external commits and
+//! competing commits of the old epoch; its state stays byte-identical.  `frz` rows feed `Resumption.commitVerdict`.
 use crate::providers::SharedCryptoLog;
 use crate::util::{Opts, Rng, QA};
 use crate::world::*;
 use mls_rs::client_builder::MlsConfig;
+use mls_rs::crypto::SignatureSecretKey;
 use mls_rs::group::ReceivedMessage;
+use mls_rs::identity::SigningIdentity;
 use mls_rs::{CipherSuite, Client, Group, MlsMessage, ProtocolVersion};
+use std::cell::Cell;
+
+/// signing identity and key of every member of the world, by member index (a member's second client, for another cipher
+/// suite or protocol version, shares them and the member's key-package storage)
+type Keys = Vec<(SigningIdentity, SignatureSecretKey)>;
+
+/// the protocol version the client maker uses for the next client (`None`: the clients know MLS 1.0 only)
+type Ver<'a> = Option<&'a Cell<u16>>;
 
 struct Out {
     fails: Vec<String>,
     cases: u64,
     cover: std::collections::BTreeSet<String>,
     samples: Vec<String>,
+    /// observations that contradict the property's wording but are not (yet) oracle failures: reported, file `c17.findings`
+    findings: Vec<String>,
 }
 
 type Mk<'a, C> = &'a dyn Fn(&Setup, &Handles, mls_rs::identity::SigningIdentity, mls_rs::crypto::SignatureSecretKey) -> Client<C>;
 
-fn new_client<C: MlsConfig>(w: &mut World<C>, mk: Mk<C>, name: &str) -> usize {
-    let s = Setup::new(name);
+fn new_client<C: MlsConfig>(w: &mut World<C>, mk: Mk<C>, keys: &mut Keys, name: &str) -> usize {
+    new_client_for(w, mk, keys, None, name, 1, 1)
+}
+
+/// a client for the given cipher suite (1 or 3: the same kind of signature key) and protocol version
+fn new_client_for<C: MlsConfig>(w: &mut World<C>, mk: Mk<C>, keys: &mut Keys, ver: Ver, name: &str, suite: u16, version: u16) -> usize {
+    let mut s = Setup::new(name);
+    s.suite = suite;
     let h = handles(&s, &w.crypto_log, &w.scratch);
     let (id, sk) = make_identity(&s.name, s.suite);
+    keys.push((id.clone(), sk.clone()));
+    if let Some(c) = ver {
+        c.set(version);
+    }
     let client = mk(&s, &h, id, sk);
+    if let Some(c) = ver {
+        c.set(1);
+    }
     w.members.push(Member { identity: s.name.as_bytes().to_vec(), setup: s, h, client, group: None, ghosts: vec![], wrote: false });
     w.members.len() - 1
+}
+
+/// `mk_client` with clients that declare the protocol versions 1 and 2 supported and use `used`.  The crate defines MLS 1.0
+/// only (`ProtocolVersion::all`), but a client can be configured with further version numbers
+/// (`ClientBuilder::protocol_versions`, `used_protocol_version`): the only way a group of another version can exist at all.
+fn mk_client_v(s: &Setup, h: &Handles, id: SigningIdentity, sk: SignatureSecretKey, used: u16) -> Client<impl MlsConfig> {
+    use mls_rs::mls_rules::{CommitOptions, DefaultMlsRules, EncryptionOptions};
+    let rules = DefaultMlsRules::new()
+        .with_commit_options(
+            CommitOptions::new()
+                .with_ratchet_tree_extension(s.tree_ext)
+                .with_single_welcome_message(s.single_welcome)
+                .with_path_required(s.path_required)
+                .with_allow_external_commit(true),
+        )
+        .with_encryption_options(EncryptionOptions::new(s.enc_ctl, mls_rs::client_builder::PaddingMode::None));
+    Client::builder()
+        .crypto_provider(h.crypto.clone())
+        .identity_provider(h.idp.clone())
+        .group_state_storage(h.store.clone())
+        .key_package_repo(h.kp.clone())
+        .psk_store(h.psk.clone())
+        .mls_rules(rules)
+        .protocol_versions([ProtocolVersion::MLS_10, ProtocolVersion::new(2)])
+        .used_protocol_version(ProtocolVersion::new(used))
+        .signing_identity(id, sk, CipherSuite::from(s.suite))
+        .build()
 }
 
 fn rcv_join_ok<C: MlsConfig>(rc: Option<mls_rs::group::ReinitClient<C>>, wm: &MlsMessage) -> bool {
@@ -39,9 +100,325 @@ const JOIN_CLASSES: [&str; 7] = ["ok", "NotASubgroup", "ProtocolVersionMismatch"
 
 /// `join` row of the model (`Resumption.joinChecks`): expected version/suite/group id/extensions against the joined group's
 /// version/suite/epoch/group id/extensions (ids and extensions as 0 = the announced one, 1 = another one)
-fn join_row(qa: &mut QA, kind: &str, old: &[usize], new: &[usize], suite: u16, gg: u8, gx: u8, class: &str) {
+fn join_row(qa: &mut QA, kind: &str, old: &[usize], new: &[usize], ver: u16, suite: u16, gg: u8, gx: u8, class: &str) {
+    join_row_full(qa, kind, old, new, (ver, suite), (ver, suite, 1), gg, gx, class)
+}
+
+/// the same row with every dimension: announced (version, suite), actual (version, suite, Welcome epoch)
+fn join_row_full(qa: &mut QA, kind: &str, old: &[usize], new: &[usize], exp: (u16, u16), got: (u16, u16, u64), gg: u8, gx: u8, class: &str) {
     if JOIN_CLASSES.contains(&class) {
-        qa.put(&format!("join {kind} {} {} 1 {suite} 0 0 1 {suite} 1 {gg} {gx}", list(old), list(new)), class);
+        qa.put(&format!("join {kind} {} {} {} {} 0 0 {} {} {} {gg} {gx}", list(old), list(new), exp.0, exp.1, got.0, got.1, got.2), class);
+    }
+}
+
+/// a deviation of a dishonest creator from what was announced (re-init) / from the old group's parameters (branch)
+#[derive(Clone, Copy, Default, Debug)]
+struct Dev {
+    ver: bool,
+    suite: bool,
+    /// empty commits before the commit that adds the members: the Welcome is for epoch 1 + epochs
+    epochs: u32,
+    gid: bool,
+    ext: bool,
+}
+
+impl Dev {
+    fn name(&self) -> String {
+        let mut v = vec![];
+        if self.ver {
+            v.push("version");
+        }
+        if self.suite {
+            v.push("suite");
+        }
+        if self.epochs > 0 {
+            v.push("epoch");
+        }
+        if self.gid {
+            v.push("group-id");
+        }
+        if self.ext {
+            v.push("extensions");
+        }
+        if v.is_empty() {
+            "none".into()
+        } else {
+            v.join("+")
+        }
+    }
+    /// The classes of a correct refusal.  `join` reports the first failing check, so any class of a deviating dimension is
+    /// a correct refusal as far as the property goes (the `join` row pins the exact one against the model).  A client that
+    /// refused the Welcome's version / suite before building the group (`Unsupported...`) would be equally right.
+    fn acceptable(&self, reinit: bool) -> Vec<&'static str> {
+        let mut v = vec![];
+        if self.ver {
+            v.extend(["ProtocolVersionMismatch", "UnsupportedProtocolVersion"]);
+        }
+        if self.suite {
+            v.extend(["CipherSuiteMismatch", "UnsupportedCipherSuite"]);
+        }
+        if self.epochs > 0 {
+            v.push("InitialEpochNotOne");
+        }
+        if self.gid && reinit {
+            v.push("GroupIdMismatch");
+        }
+        if self.ext {
+            v.push("ReInitExtensionsMismatch");
+        }
+        v
+    }
+}
+
+/// the deviations tried against one successor: each dimension alone, then two random combinations
+fn deviations(xr: &mut Rng, reinit: bool, with_ver: bool) -> Vec<Dev> {
+    let mut v = vec![Dev::default()];
+    v.push(Dev { epochs: 1 + xr.below(3) as u32, ..Default::default() });
+    v.push(Dev { suite: true, ..Default::default() });
+    if with_ver {
+        v.push(Dev { ver: true, ..Default::default() });
+    }
+    for _ in 0..2 {
+        let d = Dev {
+            ver: with_ver && xr.chance(1, 3),
+            suite: xr.chance(1, 2),
+            epochs: if xr.chance(1, 2) { 1 + xr.below(2) as u32 } else { 0 },
+            gid: reinit && xr.chance(1, 3),
+            ext: reinit && xr.chance(1, 3),
+        };
+        if d.ver as u32 + d.suite as u32 + (d.epochs > 0) as u32 + d.gid as u32 + d.ext as u32 >= 2 {
+            v.push(d);
+        }
+    }
+    v
+}
+
+/// A key package of member `i` for another cipher suite / protocol version: a second client of the member with the same
+/// signing identity, key and key-package storage (suites 1 and 3 use the same kinds of keys).
+fn alt_kp<C: MlsConfig>(w: &World<C>, mk: Mk<C>, keys: &Keys, ver: Ver, i: usize, suite: u16, version: u16) -> Result<MlsMessage, String> {
+    let mut s2 = w.members[i].setup.clone();
+    s2.suite = suite;
+    if let Some(c) = ver {
+        c.set(version);
+    }
+    let c2 = mk(&s2, &w.members[i].h, keys[i].0.clone(), keys[i].1.clone());
+    if let Some(c) = ver {
+        c.set(1);
+    }
+    c2.generate_key_package_message(Default::default(), Default::default(), None).map_err(|e| err_class(&e))
+}
+
+fn other_suite(s: u16) -> u16 {
+    if s == 1 {
+        3
+    } else {
+        1
+    }
+}
+
+fn other_version(v: u16) -> u16 {
+    if v == 1 {
+        2
+    } else {
+        1
+    }
+}
+
+const FRZ_CLASSES: [&str; 2] = ["ok", "GroupUsedAfterReInit"];
+
+/// `frz` row of the model (`Resumption.commitVerdict`): is a re-init pending, which entry point (build / process a commit)
+fn frz_row(qa: &mut QA, pending: bool, entry: &str, class: &str) {
+    if FRZ_CLASSES.contains(&class) {
+        qa.put(&format!("frz {} {entry}", pending as u8), class);
+    }
+}
+
+fn res_class(r: &Res) -> String {
+    match r {
+        Res::Ok => "ok".into(),
+        Res::Err(c) => c.clone(),
+        Res::Panic(p) => format!("panic:{p}"),
+    }
+}
+
+/// The freeze of the old group after the re-init commit was applied by everybody in `alive`: building and processing
+/// commits is refused and changes nothing.  `pre`: a copy of one member's group from before the re-init commit.
+#[allow(clippy::too_many_arguments)]
+fn frozen_checks<C: MlsConfig>(
+    w: &mut World<C>,
+    xr: &mut Rng,
+    out: &mut Out,
+    qa: &mut QA,
+    alive: &[usize],
+    pre: (usize, Group<C>),
+    newcomer: usize,
+    psk_id: &[u8],
+) {
+    let fresh_kp = |w: &World<C>| w.members[newcomer].client.generate_key_package_message(Default::default(), Default::default(), None).unwrap();
+    // ---- building commits ---------------------------------------------------------------------------
+    for &i in alive {
+        let me = w.group(i).current_member_index();
+        let other_leaf = w.group(i).roster().members_iter().map(|m| m.index).find(|&x| x != me);
+        let mut ops: Vec<&str> = vec!["empty", "add", "psk", "reinit", "detached"];
+        if other_leaf.is_some() {
+            ops.push("remove");
+        }
+        for op in ops {
+            out.cases += 1;
+            let before = w.components(i);
+            let kp = fresh_kp(w);
+            let pid = psk_id.to_vec();
+            let gid = xr.bytes(8);
+            let (r, _) = w.with_group(i, |g| match op {
+                "empty" => g.commit_builder().build().map(|_| ()),
+                "add" => g.commit_builder().add_member(kp)?.build().map(|_| ()),
+                "remove" => g.commit_builder().remove_member(other_leaf.unwrap())?.build().map(|_| ()),
+                "psk" => g.commit_builder().add_external_psk(ext_psk_id(&pid))?.build().map(|_| ()),
+                "reinit" => g.commit_builder().reinit(Some(gid), ProtocolVersion::MLS_10, CipherSuite::from(1u16), Default::default())?.build().map(|_| ()),
+                _ => g.commit_builder().build_detached().map(|_| ()),
+            });
+            let class = res_class(&r);
+            frz_row(qa, true, "build", &class);
+            if r.ok() {
+                out.fails.push(format!("member {i} built a commit ({op}) in the old group after the re-init commit"));
+                w.with_group(i, |g| {
+                    g.clear_pending_commit();
+                    Ok(())
+                });
+            } else if class != "GroupUsedAfterReInit" {
+                // the freeze is the only ground for refusing these well-formed commits
+                out.fails.push(format!("member {i}: commit ({op}) in the frozen old group refused with an unexpected class: {class}"));
+            }
+            let after = w.components(i);
+            let ch = World::<C>::changed(&before, &after);
+            if !ch.is_empty() {
+                out.fails.push(format!("member {i}: a refused commit ({op}) in the frozen old group changed its state: {}", ch.join(",")));
+            }
+            out.cover.insert(format!("frozen-build:{op}"));
+        }
+    }
+    // ---- what else the library allows in a frozen group (observed on copies; the property speaks of commits only) ----
+    let i = alive[0];
+    let me = w.group(i).current_member_index();
+    let other_leaf = w.group(i).roster().members_iter().map(|m| m.index).find(|&x| x != me);
+    let kp = fresh_kp(w);
+    let obs = |out: &mut Out, op: &str, r: Result<(), mls_rs::error::MlsError>| {
+        out.cover.insert(format!("frozen-obs:{op}={}", r.map(|_| "ok".to_string()).unwrap_or_else(|e| err_class(&e))));
+    };
+    obs(out, "propose_add", w.group(i).clone().propose_add(kp, vec![]).map(|_| ()));
+    obs(out, "propose_update", w.group(i).clone().propose_update(vec![]).map(|_| ()));
+    if let Some(l) = other_leaf {
+        obs(out, "propose_remove", w.group(i).clone().propose_remove(l, vec![]).map(|_| ()));
+    }
+    obs(out, "propose_external_psk", w.group(i).clone().propose_external_psk(ext_psk_id(psk_id), vec![]).map(|_| ()));
+    obs(out, "application_message", w.group(i).clone().encrypt_application_message(b"after re-init", vec![]).map(|_| ()));
+    // ---- processing commits -------------------------------------------------------------------------
+    let (d, mut pre_group) = pre;
+    // a member that ignores the freeze: its copy of the old group at the epoch after the re-init commit goes on committing
+    let mut ghost = w.group(d).clone();
+    ghost.verif_forget_reinit();
+    let d_leaf = ghost.current_member_index();
+    let other_leaf = ghost.roster().members_iter().map(|m| m.index).find(|&x| x != d_leaf);
+    let mut msgs: Vec<(&str, MlsMessage)> = vec![];
+    {
+        let mut g = ghost.clone();
+        if let Ok(o) = g.commit(vec![]) {
+            msgs.push(("member-empty", o.commit_message));
+        }
+        let mut g = ghost.clone();
+        let kp = fresh_kp(w);
+        if let Ok(o) = g.commit_builder().add_member(kp).and_then(|b| b.build()) {
+            msgs.push(("member-add", o.commit_message));
+        }
+        if let Some(l) = other_leaf {
+            if alive.len() > 2 {
+                let mut g = ghost.clone();
+                if let Ok(o) = g.commit_builder().remove_member(l).and_then(|b| b.build()) {
+                    msgs.push(("member-remove", o.commit_message));
+                }
+            }
+        }
+        let mut g = ghost.clone();
+        if let Ok(o) = g.commit_builder().add_external_psk(ext_psk_id(psk_id)).and_then(|b| b.build()) {
+            msgs.push(("member-psk", o.commit_message));
+        }
+        // a by-reference proposal of the ghost, then its commit of it
+        let mut g = ghost.clone();
+        if let Ok(pm) = g.propose_update(vec![]) {
+            if let Ok(o) = g.commit(vec![]) {
+                msgs.push(("member-byref-proposal", pm));
+                msgs.push(("member-byref", o.commit_message));
+            }
+        }
+    }
+    // an external commit for the epoch after the re-init commit, from a GroupInfo a (frozen) member hands out
+    let gi_from = *xr.pick(alive);
+    match w.group(gi_from).group_info_message_allowing_ext_commit(true) {
+        Ok(gi) => {
+            out.cover.insert("frozen-obs:group_info=ok".into());
+            match w.members[newcomer].client.external_commit_builder().and_then(|b| b.build(gi)) {
+                Ok((_g, m)) => msgs.push(("external", m)),
+                Err(e) => {
+                    out.cover.insert(format!("frozen-obs:external_commit_build={}", err_class(&e)));
+                }
+            }
+        }
+        Err(e) => {
+            out.cover.insert(format!("frozen-obs:group_info={}", err_class(&e)));
+        }
+    }
+    // a competing commit of the epoch the re-init commit was made in (from the copy taken before it was applied)
+    if let Ok(o) = pre_group.commit(vec![]) {
+        msgs.push(("old-epoch", o.commit_message));
+    }
+    for (name, m) in &msgs {
+        for &i in alive {
+            if i == d {
+                continue;
+            }
+            out.cases += 1;
+            let before = w.components(i);
+            let mm = m.clone();
+            let (r, _) = w.with_group(i, |g| g.process_incoming_message(mm));
+            let class = res_class(&r);
+            let after = w.components(i);
+            let ch = World::<C>::changed(&before, &after);
+            match *name {
+                "member-byref-proposal" => {
+                    // a proposal, not a commit: the property does not say; observed only (on the real group: a cached
+                    // proposal is the only change an accepted one makes)
+                    out.cover.insert(format!("frozen-obs:recv-proposal={class}"));
+                    let bad: Vec<&String> = ch.iter().filter(|c| c.as_str() != "proposals").collect();
+                    if !bad.is_empty() {
+                        out.fails.push(format!("member {i}: a proposal received in the frozen old group changed {bad:?}"));
+                    }
+                    continue;
+                }
+                "old-epoch" => {
+                    // a message of a past epoch: refused on whatever ground (epoch or freeze)
+                    out.cover.insert(format!("frozen-recv:old-epoch={class}"));
+                }
+                _ => {
+                    frz_row(qa, true, "process", &class);
+                    if !r.ok() && class != "GroupUsedAfterReInit" {
+                        out.fails.push(format!("member {i}: a commit ({name}) received in the frozen old group refused with an unexpected class: {class}"));
+                    }
+                    out.cover.insert(format!("frozen-recv:{name}"));
+                }
+            }
+            if r.ok() {
+                out.fails.push(format!("member {i} processed a commit ({name}) in the old group after the re-init commit"));
+            }
+            if !ch.is_empty() {
+                out.fails.push(format!("member {i}: a refused commit ({name}) received in the frozen old group changed its state: {}", ch.join(",")));
+            }
+        }
+    }
+    // receiving side of the same question
+    if let Some(&j) = alive.iter().find(|&&j| j != d) {
+        if let Ok(am) = ghost.clone().encrypt_application_message(b"from the ghost", vec![]) {
+            obs(out, "recv-application", w.group(j).clone().process_incoming_message(am).map(|_| ()));
+        }
     }
 }
 
@@ -92,12 +469,16 @@ fn list(v: &[usize]) -> String {
     }
 }
 
-fn scenario<C: MlsConfig>(rng: &mut Rng, mk: Mk<C>, out: &mut Out, qa: &mut QA, log: SharedCryptoLog) {
-    let mut w: World<C> = new_world(log, "/tmp/vharness-scratch-c17");
+fn scenario<C: MlsConfig>(rng: &mut Rng, mk: Mk<C>, ver: Ver, out: &mut Out, qa: &mut QA, log: SharedCryptoLog) {
+    let mut w: World<C> = new_world(log, &crate::util::scratch("c17"));
+    let mut keys: Keys = vec![];
+    // the choices of the mismatch / freeze scenarios come from a stream of their own (derived from the scenario's seed
+    // without consuming it): the old-group histories of a given seed stay what they were
+    let mut xr = Rng(rng.0 ^ 0xC17C_17C1_7C17_C17C);
     // ---- old group: n members, then remove some (interior blanks), maybe re-add / update --------------------
     let n = rng.range(2, 7) as usize;
     for i in 0..n {
-        new_client(&mut w, mk, &format!("m{i}"));
+        new_client(&mut w, mk, &mut keys, &format!("m{i}"));
     }
     let g = w.members[0].client.create_group(Default::default(), Default::default(), None).unwrap();
     w.members[0].group = Some(g);
@@ -121,6 +502,8 @@ fn scenario<C: MlsConfig>(rng: &mut Rng, mk: Mk<C>, out: &mut Out, qa: &mut QA, 
             }
         }
     }
+    // every member's state at the epoch it joined at: stale by the time of the branch if anything was committed since
+    let early: Vec<Option<Group<C>>> = (0..n).map(|i| w.members[i].group.clone()).collect();
     // removals creating blanks (never the last leaf only: also interior)
     let removals = rng.below(n as u64 / 2 + 1) as usize;
     for _ in 0..removals {
@@ -158,12 +541,12 @@ fn scenario<C: MlsConfig>(rng: &mut Rng, mk: Mk<C>, out: &mut Out, qa: &mut QA, 
             invited.remove(k);
         }
         2 => {
-            stranger = Some(new_client(&mut w, mk, "stranger"));
+            stranger = Some(new_client(&mut w, mk, &mut keys, "stranger"));
         }
         3 if !invited.is_empty() => {
             let k = rng.below(invited.len() as u64) as usize;
             invited.remove(k);
-            stranger = Some(new_client(&mut w, mk, "replacement"));
+            stranger = Some(new_client(&mut w, mk, &mut keys, "replacement"));
         }
         _ => {}
     }
@@ -174,20 +557,59 @@ fn scenario<C: MlsConfig>(rng: &mut Rng, mk: Mk<C>, out: &mut Out, qa: &mut QA, 
         // ---- the re-init commit -----------------------------------------------------------------------
         let new_gid = rng.bytes(8);
         let gid2 = new_gid.clone();
+        // what the ReInit proposal announces: the old suite or another one (1 <-> 3, the members' signature keys fit both),
+        // where the clients know a second protocol version: that one half of the time, and sometimes extensions
+        let old_suite = w.members[creator].setup.suite;
+        let ann_suite: u16 = if xr.chance(1, 2) { old_suite } else { other_suite(old_suite) };
+        let ann_ver: u16 = if ver.is_some() && xr.chance(1, 2) { 2 } else { 1 };
+        let mut ann_ext = mls_rs::ExtensionList::new();
+        if xr.chance(1, 3) {
+            let (xid, _) = make_identity("announced-sender", old_suite);
+            ann_ext.set_from(mls_rs::extension::built_in::ExternalSendersExt::new(vec![xid])).unwrap();
+        }
+        out.cover.insert(format!("announced: suite={} version={ann_ver} extensions={}", if ann_suite == old_suite { "same" } else { "other" }, ann_ext.len()));
+        // for the freeze checks: a copy of a member's group from before the re-init commit, a newcomer, a PSK everybody has
+        let d = *xr.pick(&alive);
+        let pre = (d, w.group(d).clone());
+        let newcomer = new_client(&mut w, mk, &mut keys, "newcomer");
+        let psk_id = xr.bytes(8);
+        let psk_val = xr.bytes(32);
+        for &i in &alive {
+            w.members[i].h.psk.inner.lock().unwrap().insert(ext_psk_id(&psk_id), psk_value(&psk_val));
+        }
+        let ann_ext2 = ann_ext.clone();
         let r = commit_all(&mut w, creator, |g| {
-            g.commit_builder().reinit(Some(gid2), ProtocolVersion::MLS_10, CipherSuite::from(1u16), Default::default())?.build()
+            g.commit_builder().reinit(Some(gid2), ProtocolVersion::new(ann_ver), CipherSuite::from(ann_suite), ann_ext2)?.build()
         });
         if let Err(e) = r {
             out.fails.push(format!("re-init commit failed: {e}"));
             return;
         }
+        // the re-init commit itself was built and processed while no re-init was pending
+        frz_row(qa, false, "build", "ok");
+        if alive.len() > 1 {
+            frz_row(qa, false, "process", "ok");
+        }
         // frozen: nobody can commit any more
         for &i in &alive {
             let (r, _) = w.with_group(i, |g| g.commit(vec![]));
+            frz_row(qa, true, "build", &res_class(&r));
             if r.ok() {
                 out.fails.push(format!("member {i} could commit in the old group after the re-init commit"));
+                w.with_group(i, |g| {
+                    g.clear_pending_commit();
+                    Ok(())
+                });
             }
         }
+        // the state from before the re-init commit does not give a re-init client (nothing is pending there)
+        match pre.1.clone().get_reinit_client(None, None) {
+            Ok(_) => out.fails.push(format!("member {} got a re-init client from its state before the re-init commit", pre.0)),
+            Err(e) => {
+                out.cover.insert(format!("stale-reinit-client={}", err_class(&e)));
+            }
+        }
+        frozen_checks(&mut w, &mut xr, out, qa, &alive, pre, newcomer, &psk_id);
         // successor: key packages from the invited members' reinit clients
         let mut rcs: Vec<(usize, Option<mls_rs::group::ReinitClient<C>>)> = vec![];
         for &i in &invited {
@@ -201,7 +623,12 @@ fn scenario<C: MlsConfig>(rng: &mut Rng, mk: Mk<C>, out: &mut Out, qa: &mut QA, 
             kps.push(rc.as_ref().unwrap().generate_key_package(None).unwrap());
         }
         if let Some(s) = stranger {
-            kps.push(w.members[s].client.generate_key_package_message(Default::default(), Default::default(), None).unwrap());
+            // (a second client of the stranger for the announced suite and version, where they are not the old ones)
+            if (ann_suite, ann_ver) == (old_suite, 1) {
+                kps.push(w.members[s].client.generate_key_package_message(Default::default(), Default::default(), None).unwrap());
+            } else {
+                kps.push(alt_kp(&w, mk, &keys, ver, s, ann_suite, ann_ver).unwrap());
+            }
         }
         let creator_rc = match w.group(creator).clone().get_reinit_client(None, None) {
             Ok(rc) => rc,
@@ -251,12 +678,12 @@ fn scenario<C: MlsConfig>(rng: &mut Rng, mk: Mk<C>, out: &mut Out, qa: &mut QA, 
                             if !ok {
                                 last = "joined but disagrees with the creator".into();
                             }
-                            join_row(qa, "reinit", &old_ids, &new_ids, 1, 0, 0, "ok");
+                            join_row(qa, "reinit", &old_ids, &new_ids, ann_ver, ann_suite, 0, 0, "ok");
                             break;
                         }
                         Err(e) => {
                             last = err_class(&e);
-                            join_row(qa, "reinit", &old_ids, &new_ids, 1, 0, 0, &last);
+                            join_row(qa, "reinit", &old_ids, &new_ids, ann_ver, ann_suite, 0, 0, &last);
                         }
                     }
                 }
@@ -266,7 +693,7 @@ fn scenario<C: MlsConfig>(rng: &mut Rng, mk: Mk<C>, out: &mut Out, qa: &mut QA, 
                 }
             }
             // a party without the old group's state cannot use the Welcome (plain join lacks the resumption PSK)
-            let outsider = new_client(&mut w, mk, "outsider");
+            let outsider = new_client(&mut w, mk, &mut keys, "outsider");
             for wm in &welcomes {
                 if w.members[outsider].client.join_group(None, wm, None).is_ok() {
                     out.fails.push("an outsider joined the re-initialised group through a Welcome".into());
@@ -277,7 +704,7 @@ fn scenario<C: MlsConfig>(rng: &mut Rng, mk: Mk<C>, out: &mut Out, qa: &mut QA, 
             // member's ReinitClient must refuse that Welcome, whose key schedule does not depend on the old group
             if let Some((victim, _)) = rcs.first() {
                 let cname = w.members[creator].setup.name.clone();
-                let imp = new_client(&mut w, mk, &cname);
+                let imp = new_client_for(&mut w, mk, &mut keys, ver, &cname, ann_suite, ann_ver);
                 let rcv = w.group(*victim).clone().get_reinit_client(None, None).unwrap();
                 let vkp = rcv.generate_key_package(None).unwrap();
                 if let Ok(mut ig) = w.members[imp].client.create_group_with_id(new_gid.clone(), Default::default(), Default::default(), None) {
@@ -325,7 +752,7 @@ fn scenario<C: MlsConfig>(rng: &mut Rng, mk: Mk<C>, out: &mut Out, qa: &mut QA, 
                                 Err(e) => err_class(e),
                             };
                             let (gg, gx) = if dev == "group-id" { (1, 0) } else { (0, 1) };
-                            join_row(qa, "reinit", &old_ids, &new_ids, 1, gg, gx, &class);
+                            join_row(qa, "reinit", &old_ids, &new_ids, ann_ver, ann_suite, gg, gx, &class);
                             if r.is_ok() {
                                 out.fails.push(format!("old member {i} joined a successor whose {dev} differs from the one announced by the ReInit proposal"));
                             }
@@ -334,6 +761,150 @@ fn scenario<C: MlsConfig>(rng: &mut Rng, mk: Mk<C>, out: &mut Out, qa: &mut QA, 
                     if !rcs.is_empty() {
                         out.cover.insert(format!("deviating-successor:{dev}"));
                     }
+                }
+            }
+            // the other parameters a Welcome must match: protocol version, cipher suite, epoch 1 -- each alone, and combinations
+            // (the first failing check of `join` names the class: the `join` row asks the model).  The creator deviates through
+            // the hook; a joiner whose key package must be of another suite / version published it with its ordinary client of
+            // that suite / version (same signing identity and key-package storage).  `none` is the control: no deviation.
+            let victims: Vec<usize> = rcs.iter().map(|(i, _)| *i).collect();
+            for dev in deviations(&mut xr, true, ver.is_some()) {
+                if victims.is_empty() {
+                    break;
+                }
+                let got_suite = if dev.suite { other_suite(ann_suite) } else { ann_suite };
+                let got_ver = if dev.ver { other_version(ann_ver) } else { ann_ver };
+                let mut drc = match w.group(creator).clone().get_reinit_client(None, None) {
+                    Ok(x) => x,
+                    Err(_) => break,
+                };
+                let dev_gid = xr.bytes(8);
+                let mut gce = None;
+                if dev.ext {
+                    let (xid, _) = make_identity("xs", old_suite);
+                    let mut l = mls_rs::ExtensionList::new();
+                    l.set_from(mls_rs::extension::built_in::ExternalSendersExt::new(vec![xid])).unwrap();
+                    gce = Some(l);
+                }
+                drc.verif_deviate(if dev.gid { Some(dev_gid.clone()) } else { None }, gce);
+                drc.verif_deviate_params(
+                    if dev.ver { Some(ProtocolVersion::new(got_ver)) } else { None },
+                    if dev.suite { Some(CipherSuite::from(got_suite)) } else { None },
+                    dev.epochs,
+                );
+                let mut kps2 = vec![];
+                for &i in &victims {
+                    if dev.suite || dev.ver {
+                        kps2.push(alt_kp(&w, mk, &keys, ver, i, got_suite, got_ver).unwrap());
+                    } else {
+                        kps2.push(w.group(i).clone().get_reinit_client(None, None).unwrap().generate_key_package(None).unwrap());
+                    }
+                }
+                let name = dev.name();
+                match drc.commit(kps2, Default::default(), None) {
+                    Ok((g2, welcomes2)) => {
+                        let we = g2.current_epoch();
+                        if we != 1 + dev.epochs as u64 || u16::from(g2.cipher_suite()) != got_suite || g2.protocol_version().raw_value() != got_ver {
+                            out.fails.push(format!("harness: the deviating successor ({name}) is not what was asked for: epoch {we}"));
+                            continue;
+                        }
+                        for &i in &victims {
+                            for wm in &welcomes2 {
+                                out.cases += 1;
+                                let r = w.group(i).clone().get_reinit_client(None, None).unwrap().join(wm, None, None);
+                                let class = match &r {
+                                    Ok(_) => "ok".to_string(),
+                                    Err(e) => err_class(e),
+                                };
+                                join_row_full(qa, "reinit", &old_ids, &new_ids, (ann_ver, ann_suite), (got_ver, got_suite, we), dev.gid as u8, dev.ext as u8, &class);
+                                let acc = dev.acceptable(true);
+                                if acc.is_empty() {
+                                    // the control
+                                    match &r {
+                                        Ok((g, _)) => {
+                                            if g.epoch_authenticator().ok().map(|s| s.as_bytes().to_vec()) != g2.epoch_authenticator().ok().map(|s| s.as_bytes().to_vec()) {
+                                                out.fails.push(format!("old member {i} joined the (undeviating) successor made through the hook but disagrees with its creator"));
+                                            }
+                                        }
+                                        Err(_) => out.fails.push(format!("old member {i} could not join the (undeviating) successor made through the hook: {class}")),
+                                    }
+                                } else if r.is_ok() {
+                                    out.fails.push(format!(
+                                        "old member {i} joined a successor that deviates from the ReInit proposal in: {name} (announced version {ann_ver} suite {ann_suite}; the successor has version {got_ver} suite {got_suite}, its Welcome is for epoch {we})"
+                                    ));
+                                } else if !acc.contains(&class.as_str()) {
+                                    out.fails.push(format!("old member {i} refused a successor deviating in {name} with an unexpected class: {class}"));
+                                }
+                                // refused or not, nothing of the successor is in the member's storage
+                                for gid in [&new_gid, &dev_gid] {
+                                    if w.members[i].client.load_group(gid).is_ok() {
+                                        out.fails.push(format!("old member {i} has a stored group after the join attempt ({name})"));
+                                    }
+                                }
+                            }
+                        }
+                        out.cover.insert(format!("deviating-successor:{name}"));
+                    }
+                    Err(e) => {
+                        // the dishonest creator's own library refused: not a verdict on the joiners, but the scenario is lost
+                        out.cover.insert(format!("deviating-successor-not-created:{name}:{}", err_class(&e)));
+                        if dev.acceptable(true).is_empty() {
+                            out.fails.push(format!("the (undeviating) successor could not be created through the hook: {}", err_class(&e)));
+                        }
+                    }
+                }
+            }
+            // "the same identities": a successor with as many members as the old group in which one old member is missing and
+            // another identity appears twice (a second client of that identity, with keys of its own) has the right count and
+            // only old identities.  Honest creation path, no hook.  Recorded as a finding, not as an oracle failure.
+            if victims.len() >= 2 {
+                let k = xr.below(victims.len() as u64) as usize;
+                let dropped = victims[k];
+                let kept: Vec<usize> = victims.iter().cloned().filter(|&i| i != dropped).collect();
+                let twice = *xr.pick(&kept);
+                let tname = w.members[twice].setup.name.clone();
+                let dup = new_client_for(&mut w, mk, &mut keys, ver, &tname, ann_suite, ann_ver);
+                let mut kps3 = vec![];
+                for &i in &kept {
+                    kps3.push(w.group(i).clone().get_reinit_client(None, None).unwrap().generate_key_package(None).unwrap());
+                }
+                kps3.push(w.members[dup].client.generate_key_package_message(Default::default(), Default::default(), None).unwrap());
+                let cb = w.members[creator].identity.clone();
+                let mut ids3: Vec<usize> = vec![w.stamps.of(&cb)];
+                for &i in kept.iter().chain([twice].iter()) {
+                    let b = w.members[i].identity.clone();
+                    ids3.push(w.stamps.of(&b));
+                }
+                let r3 = w.group(creator).clone().get_reinit_client(None, None).unwrap().commit(kps3, Default::default(), None);
+                let class = match &r3 {
+                    Ok(_) => "ok".to_string(),
+                    Err(e) => err_class(e),
+                };
+                if class == "ok" || class == "NotASubgroup" {
+                    qa.put(&format!("sub reinit {} {}", list(&old_ids), list(&ids3)), if class == "ok" { "ok" } else { "err" });
+                }
+                out.cover.insert(format!("duplicate-identity-successor:create={class}"));
+                if let Ok((_g3, welcomes3)) = r3 {
+                    let mut joined = vec![];
+                    for &i in &kept {
+                        for wm in &welcomes3 {
+                            let r = w.group(i).clone().get_reinit_client(None, None).unwrap().join(wm, None, None);
+                            let class = match &r {
+                                Ok(_) => "ok".to_string(),
+                                Err(e) => err_class(e),
+                            };
+                            join_row(qa, "reinit", &old_ids, &ids3, ann_ver, ann_suite, 0, 0, &class);
+                            out.cover.insert(format!("duplicate-identity-successor:join={class}"));
+                            if r.is_ok() {
+                                joined.push(i);
+                            }
+                        }
+                    }
+                    out.findings.push(format!(
+                        "re-init successor with identities {} for the old group {} (member {dropped} missing, member {twice}'s identity twice) was created; joined by old members {joined:?}",
+                        list(&ids3),
+                        list(&old_ids)
+                    ));
                 }
             }
             // an old member using a plain join (without the old group's resumption secret) is refused as well
@@ -386,12 +957,12 @@ fn scenario<C: MlsConfig>(rng: &mut Rng, mk: Mk<C>, out: &mut Out, qa: &mut QA, 
                         Ok((g, _)) => {
                             ok = g.epoch_authenticator().ok().map(|s| s.as_bytes().to_vec()) == newg.epoch_authenticator().ok().map(|s| s.as_bytes().to_vec());
                             // the branch has a group id of its own: not compared
-                            join_row(qa, "branch", &old_ids, &new_ids, 1, 1, 0, "ok");
+                            join_row(qa, "branch", &old_ids, &new_ids, 1, 1, 1, 0, "ok");
                             break;
                         }
                         Err(e) => {
                             last = err_class(&e);
-                            join_row(qa, "branch", &old_ids, &new_ids, 1, 1, 0, &last);
+                            join_row(qa, "branch", &old_ids, &new_ids, 1, 1, 1, 0, &last);
                         }
                     }
                 }
@@ -399,10 +970,110 @@ fn scenario<C: MlsConfig>(rng: &mut Rng, mk: Mk<C>, out: &mut Out, qa: &mut QA, 
                     out.fails.push(format!("old member {i} could not join the branch: {last}"));
                 }
             }
-            let outsider = new_client(&mut w, mk, "outsider");
+            let outsider = new_client(&mut w, mk, &mut keys, "outsider");
             for wm in &welcomes {
                 if w.members[outsider].client.join_group(None, wm, None).is_ok() {
                     out.fails.push("an outsider joined the branch through a Welcome".into());
+                }
+            }
+            // the resumption secret must be the one of the epoch the branch was made in: an invited member's copy of the old
+            // group from an earlier epoch cannot join
+            let now_epoch = w.group(creator).current_epoch();
+            for &i in &invited {
+                if let Some(st) = &early[i] {
+                    if st.current_epoch() < now_epoch {
+                        for wm in &welcomes {
+                            out.cases += 1;
+                            match st.join_subgroup(wm, None, None) {
+                                Ok(_) => out.fails.push(format!(
+                                    "member {i} joined the branch made at epoch {now_epoch} with its state of epoch {} (another resumption secret)",
+                                    st.current_epoch()
+                                )),
+                                Err(e) => {
+                                    out.cover.insert(format!("stale-branch-join={}", err_class(&e)));
+                                }
+                            }
+                        }
+                    }
+                }
+            }
+            // a dishonest member branches with another protocol version / cipher suite than the old group's, or with a Welcome
+            // for an epoch other than 1 (hook `verif_branch_deviating`, the creation path of `branch`); `none` is the control
+            let old_suite = w.members[creator].setup.suite;
+            for dev in deviations(&mut xr, false, ver.is_some()) {
+                if invited.is_empty() {
+                    break;
+                }
+                let got_suite = if dev.suite { other_suite(old_suite) } else { old_suite };
+                let got_ver = if dev.ver { 2 } else { 1 };
+                let mut kps2 = vec![];
+                for &i in &invited {
+                    if dev.suite || dev.ver {
+                        kps2.push(alt_kp(&w, mk, &keys, ver, i, got_suite, got_ver).unwrap());
+                    } else {
+                        kps2.push(w.members[i].client.generate_key_package_message(Default::default(), Default::default(), None).unwrap());
+                    }
+                }
+                let name = dev.name();
+                let bid = xr.bytes(8);
+                let r = w.group(creator).verif_branch_deviating(
+                    bid.clone(),
+                    kps2,
+                    if dev.ver { Some(ProtocolVersion::new(got_ver)) } else { None },
+                    if dev.suite { Some(CipherSuite::from(got_suite)) } else { None },
+                    dev.epochs,
+                );
+                match r {
+                    Ok((g2, welcomes2)) => {
+                        let we = g2.current_epoch();
+                        if we != 1 + dev.epochs as u64 || u16::from(g2.cipher_suite()) != got_suite || g2.protocol_version().raw_value() != got_ver {
+                            out.fails.push(format!("harness: the deviating branch ({name}) is not what was asked for: epoch {we}"));
+                            continue;
+                        }
+                        for &i in &invited {
+                            for wm in &welcomes2 {
+                                out.cases += 1;
+                                let before = w.components(i);
+                                let r = w.group(i).join_subgroup(wm, None, None);
+                                let class = match &r {
+                                    Ok(_) => "ok".to_string(),
+                                    Err(e) => err_class(e),
+                                };
+                                join_row_full(qa, "branch", &old_ids, &new_ids, (1, old_suite), (got_ver, got_suite, we), 1, 0, &class);
+                                let acc = dev.acceptable(false);
+                                if acc.is_empty() {
+                                    match &r {
+                                        Ok((g, _)) => {
+                                            if g.epoch_authenticator().ok().map(|s| s.as_bytes().to_vec()) != g2.epoch_authenticator().ok().map(|s| s.as_bytes().to_vec()) {
+                                                out.fails.push(format!("old member {i} joined the (undeviating) branch made through the hook but disagrees with its creator"));
+                                            }
+                                        }
+                                        Err(_) => out.fails.push(format!("old member {i} could not join the (undeviating) branch made through the hook: {class}")),
+                                    }
+                                } else if r.is_ok() {
+                                    out.fails.push(format!(
+                                        "old member {i} joined a branch that deviates from the old group in: {name} (old group: version 1 suite {old_suite}; the branch has version {got_ver} suite {got_suite}, its Welcome is for epoch {we})"
+                                    ));
+                                } else if !acc.contains(&class.as_str()) {
+                                    out.fails.push(format!("old member {i} refused a branch deviating in {name} with an unexpected class: {class}"));
+                                }
+                                drop(r);
+                                if !World::<C>::changed(&before, &w.components(i)).is_empty() {
+                                    out.fails.push(format!("old member {i}: a join attempt of a branch ({name}) changed the old group"));
+                                }
+                                if w.members[i].client.load_group(&bid).is_ok() {
+                                    out.fails.push(format!("old member {i} has a stored group after the branch join attempt ({name})"));
+                                }
+                            }
+                        }
+                        out.cover.insert(format!("deviating-branch:{name}"));
+                    }
+                    Err(e) => {
+                        out.cover.insert(format!("deviating-branch-not-created:{name}:{}", err_class(&e)));
+                        if dev.acceptable(false).is_empty() {
+                            out.fails.push(format!("the (undeviating) branch could not be created through the hook: {}", err_class(&e)));
+                        }
+                    }
                 }
             }
         }
@@ -418,19 +1089,29 @@ pub fn run(o: &Opts) -> i32 {
     let mut rng = Rng::new(o.seed());
     let mut qa = QA::create(&dir, "c17");
     let n = o.u64("scenarios", if o.thorough() { 3000 } else { 200 });
-    let mut out = Out { fails: vec![], cases: 0, cover: Default::default(), samples: vec![] };
+    let mut out = Out { fails: vec![], cases: 0, cover: Default::default(), samples: vec![], findings: vec![] };
     let mk = |s: &Setup, hd: &Handles, id, sk| mk_client(s, hd, id, sk);
-    for _ in 0..n {
+    // every third scenario: clients that also know a (non-standard) protocol version 2, which makes a version mismatch possible
+    let vcell = Cell::new(1u16);
+    let mk2 = |s: &Setup, hd: &Handles, id, sk| mk_client_v(s, hd, id, sk, vcell.get());
+    for k in 0..n {
         let mut r = rng.fork();
-        scenario(&mut r, &mk, &mut out, &mut qa, Default::default());
+        if k % 3 == 2 {
+            out.cover.insert("clients-with-version-2".into());
+            scenario(&mut r, &mk2, Some(&vcell), &mut out, &mut qa, Default::default());
+        } else {
+            scenario(&mut r, &mk, None, &mut out, &mut qa, Default::default());
+        }
     }
     let rows = qa.finish();
     println!("rows {rows}");
     println!("cases {}", out.cases);
     println!("cover {}", out.cover.iter().cloned().collect::<Vec<_>>().join(";"));
     println!("oracle_failures {}", out.fails.len());
-    std::fs::write(format!("{dir}/c17.failures"), out.fails.iter().take(200).cloned().collect::<Vec<_>>().join("\n")).unwrap();
+    std::fs::write(format!("{dir}/c17.failures"), out.fails.iter().cloned().collect::<Vec<_>>().join("\n")).unwrap();
     std::fs::write(format!("{dir}/c17.samples"), out.samples.join("\n")).unwrap();
-    let _ = std::fs::remove_dir_all("/tmp/vharness-scratch-c17");
+    println!("findings {}", out.findings.len());
+    std::fs::write(format!("{dir}/c17.findings"), out.findings.join("\n")).unwrap();
+    let _ = std::fs::remove_dir_all(&crate::util::scratch("c17"));
     0
 }
